@@ -257,6 +257,7 @@ package quickfix
 
 //@ func (s *session) persist [C02]
 //@   requires sessfull(s)
+//@   atcall MessageStore.SaveMessageAndIncrNextSenderMsgSeqNum @saved !s.DisableMessagePersist && arg1 == seqNum && arg2 == msgBytes
 //@   ensures @ok result == nil ==> s.store.#S == wrap64(old(s.store.#S) + 1)
 //@   ensures @fail result != nil ==> s.store.#S == old(s.store.#S)
 //@   ensures @target s.store.#T == old(s.store.#T)
@@ -657,6 +658,7 @@ package quickfix
 //@   ensures @mono (session.store.#T >= old(session.store.#T) && session.store.#R == old(session.store.#R)) || session.store.#R > old(session.store.#R)
 
 //@ func (state inSession) handleLogout [C01,C06,C07]
+//@   atcall checkTargetTooLow @checked arg1 == msg
 //@   requires @sess sessfull(session)
 //@   requires @bound session.store.#T < MaxInt64
 //@   requires @msg msgok(msg)
@@ -686,6 +688,7 @@ package quickfix
 //@   modifies heap Gh.chan.sent, session.toSend, session.toSend[*], fresh E.sl.uint8, session.store.#S, heap E.quickfix.Tag, heap H.quickfix.TagValue.*, heap E.uint8, fresh H.quickfix.Message.*, fresh H.quickfix.FieldMap.*, fresh H.quickfix.tagSort.*, fresh MH.quickfix.Tag.quickfix.field, fresh H.bytes.Buffer.*
 
 //@ func (state inSession) handleResendRequest [C01,C03,C06]
+//@   atcall checkTargetTooLow @checked arg1 == msg
 //@   requires [C08] @flush !stnotlogged(session.State) || len(session.toSend) == 0
 //@   requires @sess sessfull(session)
 //@   requires @bound session.store.#T < MaxInt64
